@@ -240,7 +240,17 @@ class Check:
             self.samples.append(d)
 
     def disagree(self, stream, case, impl, model):
-        self.disagreements.append({'stream': stream, 'case': case, 'impl': impl, 'model': model})
+        d = {'stream': stream, 'case': case}
+        if isinstance(impl, str) and isinstance(model, str):
+            i = next((k for k, (a, b) in enumerate(zip(impl, model)) if a != b), min(len(impl), len(model)))
+            d['first_difference_at_char'] = i
+            d['lengths'] = [len(impl), len(model)]
+            lo = max(0, i - 60)
+            d['impl'] = impl[:40] + ' ... ' + impl[lo:i + 80] if lo > 40 else impl[:i + 80]
+            d['model'] = model[:40] + ' ... ' + model[lo:i + 80] if lo > 40 else model[:i + 80]
+        else:
+            d['impl'], d['model'] = impl, model
+        self.disagreements.append(d)
 
     def fail(self, key, case, detail):
         """A concrete input on which the property fails on the implementation (oracle verdict)."""
